@@ -169,6 +169,21 @@ CHECKS["C14"] = dict(
     design_ref="DESIGN.md section 3 / C14",
 )
 
+CHECKS["C15"] = dict(
+    category="other",
+    text=("Clause-level, on the MIR of the fast_verify builds: (M1) the caller's `&mut [u8]` message is followed from sign_mut through every function receiving it "
+          "with a whole/prefix/suffix typestate: the only split is split_at_mut(len - H::OUTPUT_SIZE) and nothing tagged whole or prefix is ever stored through or handed "
+          "mutably to a writer; (M2) the too-short test and the zero-trailer test (all(|b| b == 0) over the whole suffix) lie on every path to the signing core with "
+          "failing edges reaching only error returns; (M3) sign_mut uses the same signing core as sign (C04 applies); (M4) the searcher gets the message hasher by shared "
+          "reference and the trailer is absorbed exactly once afterwards (order randomizer, prefix, [search], suffix); (M5) no detached threads, the scope call dominates the "
+          "drain, every Sender is gone before the drain; (M6) the panic-freedom engine from sign_mut over all hash sizes x LM-OTS rows discharges every site, the "
+          "fast-verify ones by reviewed obligations tied to table facts per (n, w) row. NOT decided: that the returned signature verifies for every thread interleaving "
+          "(a race over OsRng draws) - runtime/schedule behaviour, honest not-applicable part of the property."),
+    note="Necessary conditions; the schedule-dependent core of the property is outside static reach. Trusts crossbeam's scope/channel contracts.",
+    technique="interprocedural typestate of the mutable message slice over MIR; guard facts; absorb-order / reference-kind rules; dominance on scope and channel; panic-freedom engine (abstract interpretation + reviewed obligations)",
+    design_ref="DESIGN.md section 3 / C15",
+)
+
 NOT_APPLICABLE = {
     "C01": ("Round-trip completeness (sign then verify succeeds) is equality of two computations over runtime values "
             "(message, seed, counter, 6x4x5^L parameter shapes); no dataflow/typestate fact bounds it. Its structural "
